@@ -516,8 +516,15 @@ def sample(ctx, budget=1.0, hint=None, broken=None):
                 seg = P.Arc(a, complex(r.uniform(1.5, 4), r.uniform(0.6, 4)), r.choice([0, 20, -75.5]), r.random() < 0.5, r.random() < 0.5, b)
             kindc = type(seg).__name__
             pre = r.choice(['s.length(error=1e-1)', 's.length(error=1e-2, min_depth=0)', 'svgpathtools.Path(s, svgpathtools.Line(s.end, s.start)).area(chord_length=0.05)',
-                            's.reversed().length(error=1e-1)', 'svgpathtools.Path(s).length(error=1e-1)'])
+                            's.reversed().length(error=1e-1)', 'svgpathtools.Path(s).length(error=1e-1)', 's.length()', 's.length()'])
             src = '(lambda s: (%s, s.length())[-1])(svgpathtools.%r)' % (pre, seg)
+            if pre == 's.length()':
+                # a copy made by a similarity AFTER the original was measured (negative and fractional uniform factors, a turn, a shift):
+                # the copy's length is |factor| times the original's
+                op_, fac_ = r.choice([('scaled(-1)', 1.0), ('scaled(-2.5, origin=(1+2j))', 2.5), ('scaled(0.5)', 0.5), ('rotated(123.0)', 1.0), ('translated((3-4j))', 1.0),
+                                      ('scaled(-1).scaled(-1)', 1.0)])
+                src = '(lambda s: (s.length(), s.%s.length())[-1])(svgpathtools.%r)' % (op_, seg)
+                pre = 'measured, then ' + op_
             n_eval += 1
             nontriv.add(('coarse-first', kindc, mode, pre.split('(')[0]))
             with warnings.catch_warnings():
@@ -528,6 +535,8 @@ def sample(ctx, budget=1.0, hint=None, broken=None):
                     fail('length raises (%s scipy=%s)' % (kindc, mode), 'length() raised after a coarse measurement', {'seg': repr(seg), 'first': pre, 'scipy': mode}, repr(e)[:200], 'a length', src)
                     continue
             g = gauss(lambda tau: abs(seg.derivative(tau)), 0.0, 1.0)
+            if pre.startswith('measured, then'):
+                g = g * fac_
             if not (abs(L - g) <= 1e-6 * g):
                 fail('length after a coarser measurement (%s scipy=%s)' % (kindc, mode), 'length() at the default accuracy returns what an earlier, coarser measurement of the same object left behind',
                      {'seg': repr(seg), 'first': pre, 'scipy': mode}, repr(L), repr(g), src)
